@@ -23,6 +23,7 @@ from __future__ import annotations
 
 import asyncio
 import logging
+import weakref
 from enum import Enum
 from functools import reduce
 from operator import xor
@@ -72,7 +73,11 @@ class DistributorQueue(asyncio.Queue):
         object
         """
         super().__init__(maxsize=maxsize)
-        self._handlers: dict[int, DistributorQueue] = {}
+        # Children are only referenced weakly: a child that its user has
+        # dropped must not be kept alive (and fed) by the parent forever
+        self._handlers: weakref.WeakValueDictionary[int, DistributorQueue] = (
+            weakref.WeakValueDictionary()
+        )
         self._parent = parent
         if self._parent is not None:
             self._parent.add_handler(self)
